@@ -123,6 +123,11 @@ theorem runs_step (s s' : St) (e : Ev) (hs : step s e = some s') :
     split at hs
     · simp at hs; subst hs; exact Or.inl rfl
     · simp at hs
+  | boff k b =>
+    simp only [step] at hs
+    split at hs
+    · simp at hs; subst hs; exact Or.inl rfl
+    · simp at hs
   | probe j c =>
     simp only [step] at hs
     split at hs
